@@ -6,7 +6,7 @@ import core
 
 OPS = ["contains_point", "is_valid", "made_valid", "union", "intersection", "contains_box", "collides", "expanded", "split",
        "center_size", "projected", "collision_vector", "map", "rect_to_box", "box_to_rect", "new_empty", "box_drop_z",
-       "expanded_any", "rect_vs_box"]
+       "expanded_any", "rect_vs_box", "box_distance_f"]
 
 
 def key(rec):
@@ -33,7 +33,7 @@ def run(ctx):
                 "point over all grid points, validity repair, map/as_, box<->rectangle conversions, every rectangle "
                 "method as the box method on the converted value (also on rectangles with negative positions and odd or negative "
                 "extents, where integer division matters), expansion of inside-out receivers (result contains the point, in-place "
-                "= returning form), collision vector making the boxes touch per axis; "
+                "= returning form), collision vector making the boxes touch per axis; distance from a float box (f32/f64, 2D/3D) to points 2^-4 .. 2^-60 outside a face or a corner = the true distance to 2^-14 relative; "
                 "thorough: ALL 65536 ordered pairs of 2D boxes; quick: a seeded sample of pairs (half of positive extent); "
                 "non-trivial = binary record whose operands are neither equal nor disjoint on every axis")
     thorough = ctx.tier == "thorough"
